@@ -571,7 +571,7 @@ func (m *Model) Predict(c Cmd) Pred {
 			return p
 		}
 		p.ClaimOK = ok
-		for id := range ok {
+		for _, id := range keys(ok) {
 			n := m.Clone()
 			n.Items[id].State, n.Items[id].ClaimedBy = "doing", c.Agent
 			p.Alts = append(p.Alts, n)
